@@ -135,4 +135,139 @@ theorem contigRun_append_left {s : Nat} {a : List Entry} (h : contigFrom s a = t
     have e1 : s + 1 + es.length = s + (es.length + 1) := by omega
     simp only [List.cons_append, contigRun, h.1, beq_self_eq_true, ↓reduceIte, List.length_cons, ih h.2, e1]
 
+/-! ## gap-free lists: filters, dropWhile, append -/
+
+theorem gapFree_of_contigFrom {s : Nat} {es : List Entry} (h : contigFrom s es = true) : gapFree es = true := by
+  cases es with
+  | nil => rfl
+  | cons x xs => rw [gapFree_iff, firstOf_contig h (by simp)]; exact h
+
+/-- `dropWhile` on a contiguous list: the remainder is contiguous from its head, the head fails the
+    predicate, everything before it satisfies it. -/
+theorem dropWhile_contig {p : Entry → Bool} {s : Nat} {es : List Entry} (h : contigFrom s es = true)
+    {e : Entry} {rest : List Entry} (hd : es.dropWhile p = e :: rest) :
+    contigFrom e.index (e :: rest) = true ∧ s ≤ e.index ∧ p e = false ∧ e ∈ es ∧
+      (∀ x ∈ es, x.index < e.index → p x = true) ∧ e.index + (e :: rest).length = s + es.length := by
+  induction es generalizing s with
+  | nil => simp at hd
+  | cons x xs ih =>
+    have hc := (contigFrom_cons s x xs).mp h
+    rw [List.dropWhile_cons] at hd
+    split at hd
+    · rename_i hpx
+      obtain ⟨h1, h2, h3, h4, h5, h6⟩ := ih hc.2 hd
+      refine ⟨h1, by omega, h3, List.mem_cons_of_mem _ h4, ?_, by simp at h6 ⊢; omega⟩
+      intro y hy hlt
+      rcases List.mem_cons.mp hy with rfl | hy
+      · exact hpx
+      · exact h5 y hy hlt
+    · rename_i hpx
+      injection hd with hx hr
+      subst hx; subst hr
+      refine ⟨by rw [hc.1]; exact h, by omega, by simpa using hpx, List.mem_cons_self, ?_, by simp; omega⟩
+      intro y hy hlt
+      rcases List.mem_cons.mp hy with rfl | hy
+      · omega
+      · have := contigFrom_index_ge hc.2 y hy; omega
+
+theorem dropWhile_nil_all {p : Entry → Bool} {es : List Entry} (hd : es.dropWhile p = []) :
+    ∀ x ∈ es, p x = true := by
+  induction es with
+  | nil => simp
+  | cons x xs ih =>
+    rw [List.dropWhile_cons] at hd
+    split at hd
+    · rename_i hpx
+      intro y hy
+      rcases List.mem_cons.mp hy with rfl | hy
+      · exact hpx
+      · exact ih hd y hy
+    · simp at hd
+
+/-- keeping the entries below `d` of a contiguous list. -/
+theorem filter_lt_contig {f : Nat} {es : List Entry} (h : contigFrom f es = true) (d : Nat)
+    (hd1 : f ≤ d) (hd2 : d ≤ f + es.length) :
+    contigFrom f (es.filter (fun e => e.index < d)) = true ∧ (es.filter (fun e => e.index < d)).length = d - f := by
+  induction es generalizing f with
+  | nil => simp [contigFrom] at hd2 ⊢; omega
+  | cons x xs ih =>
+    have hc := (contigFrom_cons f x xs).mp h
+    by_cases hlt : f < d
+    · have := ih hc.2 (by omega) (by simp at hd2; omega)
+      have hx : decide (x.index < d) = true := by simp; omega
+      simp only [List.filter_cons, hx, ↓reduceIte, contigFrom_cons, List.length_cons]
+      exact ⟨⟨hc.1, this.1⟩, by omega⟩
+    · have hfd : f = d := by omega
+      have hx : decide (x.index < d) = false := by simp; omega
+      have hrest : xs.filter (fun e => decide (e.index < d)) = [] := by
+        rw [List.filter_eq_nil_iff]
+        intro y hy
+        have := contigFrom_index_ge hc.2 y hy
+        simp; omega
+      simp only [List.filter_cons, hx, hrest]
+      simp [contigFrom]; omega
+
+theorem filter_lt_all {f : Nat} {es : List Entry} (h : contigFrom f es = true) (d : Nat)
+    (hd : f + es.length ≤ d) : es.filter (fun e => e.index < d) = es := by
+  rw [List.filter_eq_self]
+  intro y hy
+  have := contigFrom_index_lt h y hy
+  simp; omega
+
+theorem lastOf_append_cons (a : List Entry) (e : Entry) (rest : List Entry) :
+    lastOf (a ++ e :: rest) = lastOf (e :: rest) := by
+  simp [lastOf, List.getLast?_append]
+  cases h : (e :: rest).getLast? with
+  | none => simp at h
+  | some x => simp [h]
+
+theorem firstOf_append_of_ne {a : List Entry} (b : List Entry) (h : a ≠ []) : firstOf (a ++ b) = firstOf a := by
+  cases a with
+  | nil => exact absurd rfl h
+  | cons x xs => simp [firstOf]
+
+/-- appending a block that starts right behind the last index keeps the list gap-free. -/
+theorem gapFree_append {a b : List Entry} (ha : gapFree a = true) {s : Nat} (hb : contigFrom s b = true)
+    (hj : a = [] ∨ s = lastOf a + 1) (h1 : ∀ e ∈ a, 1 ≤ e.index) : gapFree (a ++ b) = true := by
+  cases a with
+  | nil => simpa using gapFree_of_contigFrom hb
+  | cons x xs =>
+    rcases hj with hj | hj
+    · simp at hj
+    · rw [gapFree_iff] at ha
+      have hl := lastOf_contig ha (by simp)
+      have hf : firstOf (x :: xs) = x.index := rfl
+      rw [gapFree_iff, firstOf_append_of_ne _ (by simp), contigFrom_append]
+      refine ⟨ha, ?_⟩
+      have : 1 ≤ x.index := h1 x List.mem_cons_self
+      have e : firstOf (x :: xs) + (x :: xs).length = s := by rw [hj, hl, hf]; simp; omega
+      rw [e]; exact hb
+
+theorem contigFrom_mem_index {s : Nat} {es : List Entry} (h : contigFrom s es = true) (i : Nat)
+    (h1 : s ≤ i) (h2 : i < s + es.length) : ∃ x ∈ es, x.index = i := by
+  induction es generalizing s with
+  | nil => simp at h2; omega
+  | cons x xs ih =>
+    have hc := (contigFrom_cons s x xs).mp h
+    by_cases hi : i = s
+    · exact ⟨x, List.mem_cons_self, by omega⟩
+    · obtain ⟨y, hy, hyi⟩ := ih hc.2 (by omega) (by simp at h2; omega)
+      exact ⟨y, List.mem_cons_of_mem _ hy, hyi⟩
+
+/-- In a contiguous block that starts at or below `m+1`, the first entry above `m` sits exactly at `m+1`. -/
+theorem tail_starts_after {s m : Nat} {es : List Entry} (h : contigFrom s es = true) (hs : s ≤ m + 1)
+    {e : Entry} (he : e ∈ es) (hgt : m < e.index) (hbefore : ∀ x ∈ es, x.index < e.index → x.index ≤ m) :
+    e.index = m + 1 := by
+  by_cases hq : e.index = m + 1
+  · exact hq
+  · exfalso
+    have hlt := contigFrom_index_lt h e he
+    obtain ⟨x, hx, hxi⟩ := contigFrom_mem_index h (e.index - 1) (by omega) (by omega)
+    have := hbefore x hx (by omega)
+    omega
+
+theorem appendE_ents (l : Log) (es : List Entry) : (appendE l es).ents = l.ents ++ es := rfl
+theorem removeFrom_ents (l : Log) (d : Nat) : (removeFrom l d).ents = l.ents.filter (fun e => e.index < d) := rfl
+theorem resetL_ents (l : Log) : (resetL l).ents = [] := rfl
+
 end DEngine.Repl
